@@ -431,8 +431,14 @@ def gen_case(rng, shape=None):
         for m in members_of(x):
             mark_late(m)
     mark_late(src)
-    if src["t"] in ("comp", "env") and rng.random() < 0.15:
-        src["af"] = [rand_filter(rng, pop, nodes)]
+    if src["t"] in ("comp", "env") and rng.random() < 0.3:
+        if rng.random() < 0.5:
+            # a filter that tells versions of one id apart (content), so that members' newest versions fare differently
+            p = rng.choice(pop)["pay"]
+            src["af"] = [rng.choice([{"k": "pay", "op": "!=", "v": p}, {"k": "pay", "op": "<", "v": p},
+                                     {"k": "pay", "op": ">", "v": p}, {"k": "pay", "op": "in", "v": sorted({p, rng.choice(pop)["pay"]})}])]
+        else:
+            src["af"] = [rand_filter(rng, pop, nodes)]
     if rng.random() < 0.03 and src["t"] == "comp":
         src["ms"] = []
     # reads
@@ -548,6 +554,29 @@ def any_filters(x):
     return any(any_filters(m) for m in ms)
 
 
+def leaf_views(x, inherited):
+    """for every leaf store under x: (all its records, the filters that reach it: its own + every ancestor's)"""
+    af = x.get("af", [])
+    if x["t"] in ("mem", "fs"):
+        return [([base.rec_of(o) for o in specs_of_leaf(x)], af + inherited)]
+    return [v for m in members(x) for v in leaf_views(m, inherited + af)]
+
+
+def filtered_get_bound(src, oid):
+    """Under attached filters the property fixes this much: if the newest version some member holds of the id
+    passes every filter that reaches that member, the lookup must answer, with a version at least that new.
+    (What a lookup means when a member's newest version is rejected but an older one passes is not stated.)"""
+    best = None
+    for recs, fl in leaf_views(src, []):
+        mine = [r for r in recs if r["id"] == oid and r["inst"] is not None]
+        if not mine:
+            continue
+        top = max(r["inst"] for r in mine)
+        if all(all(base.holds(f, r) for f in fl) for r in mine if r["inst"] == top):
+            best = top if best is None else max(best, top)
+    return best
+
+
 def key(r):
     return (r["id"], r["inst"])
 
@@ -657,9 +686,19 @@ def judge_read(case, src, r, got):
                     viol("get(%s) returns an object no member holds" % r["id"])
                 continue
             if filtered:
-                # under attached filters only: what is returned passes them and was added
+                # under attached filters: what is returned passes them and was added ...
                 if got and key_of_got(got[0]) not in {key(x) for x in recs}:
                     viol("get(%s) returns a version that does not pass the attached filters" % r["id"])
+                    continue
+                # ... and a member whose newest version passes the filters is not ignored
+                bound = filtered_get_bound(src, r["id"])
+                if bound is not None:
+                    if not got:
+                        viol("get(%s) returns nothing although a member's newest version (%s) passes the attached filters"
+                             % (r["id"], bound))
+                    elif key_of_got(got[0])[1] is None or key_of_got(got[0])[1] < bound:
+                        viol("get(%s) returns version %s although a member's newest version %s passes the attached filters"
+                             % (r["id"], key_of_got(got[0])[1], bound))
                 continue
             if not got:
                 viol("get(%s) returns nothing although a member holds it" % r["id"])
